@@ -111,7 +111,27 @@ def r3(R, repo):
   f, fwd, bwd = mod.func('custom_vjp.inner.f'), mod.func('custom_vjp.inner.f_fwd'), mod.func('custom_vjp.inner.f_bwd')
   sf = [astu.src(x) for x in astu.func_calls(f) if astu.call_name(x) == 'scope_fn']
   sw = [astu.src(x) for x in astu.func_calls(fwd) if astu.call_name(x) == 'scope_fn']
-  R.judge(len(sf) == 1 and len(sw) == 1, sf == sw, key_of(mod.rel, 'f and f_fwd build the scope from the same groups'), f, 'f and f_fwd must both build their scope with scope_fn((grad_variables, other_variables), rng_groups)')
+  cf = [x for x in astu.func_calls(f) if astu.call_name(x) == 'scope_fn']
+  cw = [x for x in astu.func_calls(fwd) if astu.call_name(x) == 'scope_fn']
+  k3 = key_of(mod.rel, 'f and f_fwd build the scope from the same groups')
+  m3 = 'f and f_fwd must both build their scope with scope_fn((grad_variables, other_variables), rng_groups)'
+  if len(cf) == 1 and len(cw) == 1 and sf != sw and len(cf[0].args) == len(cw[0].args) and not cf[0].keywords and not cw[0].keywords:
+    # a local standing for the tuple of groups is the tuple
+    alts = [(evid.arg_text(f, a), evid.arg_text(fwd, b)) for a, b in zip(cf[0].args, cw[0].args)]
+    if all(x & y for x, y in alts):
+      R.ok(k3, f)
+    else:
+      known = {'grad_variables', 'other_variables', 'rng_groups', 'variable_groups'}
+      used = set()
+      for x, y in alts:
+        for t in x | y:
+          used |= astu.names_loaded(ast.parse(t, mode='eval'))
+      if used <= known:
+        R.fail(k3, f, m3 + ' (got `%s` / `%s`)' % (sf[0], sw[0]))
+      else:
+        R.unsure(k3, f, m3 + ' (got `%s` / `%s`)' % (sf[0], sw[0]))
+  else:
+    R.judge(len(sf) == 1 and len(sw) == 1, sf == sw, k3, f, m3)
   evid.judge_stmts(R, f, ['y = fn(scope, *args)', 'return (y, vars_out)', 'vars_out = repack_fn(scope)'], key_of(f, 'primal: fn, repack, (y, vars_out)'), f, 'f must call the original fn and return (y, repacked variables)')
   evid.judge_stmts(R, fwd, ['y, res = forward_fn(scopes, *args)', 'return ((y, vars_out), res)', 'vars_out = repack_fn(scopes)'], key_of(fwd, 'forward: forward_fn, repack, ((y, vars_out), res)'), fwd,
           'f_fwd must call forward_fn and return ((y, repacked variables), residuals): the same primal output layout as f')
